@@ -77,7 +77,7 @@ def build_driver(force=False):
 def _run_driver(config, outdir, manifest_dir, crates="shapefile,shp_witness", target_tag=None):
     env = dict(os.environ)
     env["LD_LIBRARY_PATH"] = os.path.join(_sysroot(), "lib") + ":" + env.get("LD_LIBRARY_PATH", "")
-    env["RUSTFLAGS"] = "-Zmir-opt-level=0 -Awarnings"
+    env["RUSTFLAGS"] = "-Zmir-opt-level=0 -Zalways-encode-mir -Awarnings"
     env["RUSTC_WORKSPACE_WRAPPER"] = DRIVER_BIN
     tdir = os.path.join(WORK, "deps-" + (target_tag or config))
     env["CARGO_TARGET_DIR"] = tdir
